@@ -6,6 +6,9 @@ CLAIMED = {
  "C07": ("exploration", "4.4", "seeded syscall-level interleaving search of 2-3 GitFile writers/readers with injected errors, plus exhaustive k-th-syscall fault sweep over 21 dulwich routines that write through the lock protocol; lock ownership tracked from the system calls, invariants checked at every call",
          "real kernel O_EXCL/rename semantics; pre-emption only at intercepted syscalls; lock-file unlink itself never failed",
          "deterministic simulation: baton-passing actors over simfs, seeded schedules (uniform/burst/PCT/targeted) + fault injection, per-call invariants"),
+ "C08": ("exploration", "4.5", "seeded syscall-level interleaving search of 2-3 actors (own DiskRefsContainer/Repo each) over the ref API and committers on one branch; recorded invoke/return histories checked for linearizability against a sequential ref-map model by brute force, final on-disk state read by a fresh process; commit scenarios check every acknowledged commit is an ancestor of the final tip",
+         "schedules sampled not enumerated; multi-name reads judged per name; two recorded findings (known_findings.json) suppress only histories showing their specific interleaving mechanism",
+         "deterministic simulation: baton-passing actors over simfs, seeded schedules (uniform/burst/PCT/targeted), linearizability checking of recorded histories against a reference model"),
 }
 NA = {
  "C01": "pure function of object field values / setter order: no schedule, clock, fault or I/O seam for a simulator to own (DESIGN.md section 5)",
